@@ -1,6 +1,7 @@
 import Driver.Util
 import Driver.Repo
 import ReplicatModel.Access
+import ReplicatModel.CacheCmd
 open Lean Replicat Replicat.Access
 namespace Driver.HAccess
 open Driver.HRepo
@@ -52,7 +53,10 @@ def observeOne (enc : Bool) (s : Repo.Store) (q : Json) : Except String Json := 
 `listSnapshots` / `listFiles` / `restore` / `deletePlan` for several users and filters on ONE store (parsed once).
 `access.graph` — build the key graph of `init(password, cfg)` followed by `steps` (add-key independent / shared / clone issued
 by the holder of entry `base`); reply: per entry `[keyId, fam]` as unlocked with its own password, whether the private section
-is sealed, and for every `attempts` pair `[entry index, password]` the user the unlock yields or null (DecryptionError). -/
+is sealed, and for every `attempts` pair `[entry index, password]` the user the unlock yields or null (DecryptionError).
+`access.client` — `{enc, store, cache, cmd}`: one mutating command issued through a client whose cache directory holds `cache`
+(null = no cache directory): `CacheCmd.stepC` / `stepErrC`, and what the directory holds afterwards (`snapshot` does not touch
+it, `clean` leaves `cacheAfterLoad`, `delete` leaves `cacheAfterDelete`). -/
 def handleAccess (op : String) (j : Json) : Except String Json := do
   match op with
   | "access.observe" =>
@@ -61,6 +65,19 @@ def handleAccess (op : String) (j : Json) : Except String Json := do
     let qs ← getArr j "queries"
     let res ← qs.toList.mapM (observeOne enc s)
     pure (Json.mkObj [("results", Json.arr res.toArray)])
+  | "access.client" =>
+    let enc ← (getBool j "enc" <|> pure true)
+    let s ← parseStore (← j.getObjVal? "store")
+    let cache ← parseCache j
+    let o ← parseOp (← j.getObjVal? "cmd")
+    let err : Json := match CacheCmd.stepErrC cache enc s o with | some e => errJson e | none => Json.null
+    let after : Json := match cache with
+      | none => Json.null
+      | some c => storeJson (match o with
+          | .snapshot .. => c
+          | .delete u sids => CacheCmd.cacheAfterDelete c enc u sids s
+          | .clean u => Repo.cacheAfterLoad c enc u CacheCmd.all s)
+    pure (Json.mkObj [("store", storeJson (CacheCmd.stepC cache enc s o)), ("error", err), ("cache_after", after)])
   | "access.graph" =>
     let pw ← getNat j "password"
     let cfg ← getNat j "cfg"
